@@ -24,11 +24,15 @@ def run(db, res, tier):
   res.floor("nworld-array accesses", n, 2000)
   res.floor("world-tag writers", nw, 8)
   res.floor("global counter writes", ng, 6)
+  from .c13 import check_host_writes_masked
+
+  nh = check_host_writes_masked(db, res)
+  res.floor("ungated host-level operations of the masked reset", nh, 4)
   ndc = r_world.check_device_conditions(res, db, common.PUBLIC_SIM_ENTRIES)
   res.floor("device-side graph conditions (capture_if / capture_while)", ndc, 2)
   if unknown > 40:
     res.error(f"{unknown} first indices of unknown provenance (confirmed baseline <= 40)")
-  res.rule_text = "R-WORLD: (1) first subscript of every access to an `nworld`-first array is the thread's world id (thread index over d.nworld, or an element of a world-tag array); (3) every store into a world-tag array stores a world id; (4) world-less Data counters are written only atomically or with constants; (6) the condition array handed to wp.capture_if / wp.capture_while (the device reads element 0 only) is a batch-wide scalar, never a per-world array"
+  res.rule_text = "R-WORLD: (1) first subscript of every access to an `nworld`-first array is the thread's world id (thread index over d.nworld, or an element of a world-tag array); (3) every store into a world-tag array stores a world id; (4) world-less Data counters are written only atomically or with constants; (6) the condition array handed to wp.capture_if / wp.capture_while (the device reads element 0 only) is a batch-wide scalar, never a per-world array; R-RESET.5: with a reset mask given, reset_data writes per-world Data only through kernels that take the mask (no host-level fill/copy, no unmasked launch besides the tabled sleep bookkeeping)"
   res.explanation = (
     "Decides that no kernel reachable from step/forward/step1/step2/reset_data/get_state/set_state/inverse can read or write a "
     "cell of another world: all accesses to per-world arrays are indexed by the thread's own world id, whose provenance is "
